@@ -854,6 +854,18 @@ func c08NewPath(seen map[string]bool, filter string) bool {
 	return isNew
 }
 
+// window bounds of domain C08 are whole seconds
+func c08OptTS(s string) (*timestamppb.Timestamp, bool) {
+	if s == "-" {
+		return nil, true
+	}
+	v, err := strconv.ParseInt(s, 10, 64)
+	if err != nil {
+		return nil, false
+	}
+	return &timestamppb.Timestamp{Seconds: v}, true
+}
+
 func c08Sorted(items string) string {
 	p := strings.Split(items, ",")
 	sort.Strings(p)
@@ -926,8 +938,8 @@ func c08Run(in *bufio.Scanner, w *bufio.Writer) {
 				it, ok := c07IndexType(f[1])
 				from, e1 := strconv.ParseInt(f[3], 10, 32)
 				limit, e2 := strconv.ParseInt(f[4], 10, 32)
-				ft, ok1 := c07OptTS(f[5])
-				tt, ok2 := c07OptTS(f[6])
+				ft, ok1 := c08OptTS(f[5])
+				tt, ok2 := c08OptTS(f[6])
 				max, e3 := strconv.ParseInt(f[7], 10, 32)
 				if !ok || e1 != nil || e2 != nil || e3 != nil || !ok1 || !ok2 || (f[2] != "asc" && f[2] != "desc") {
 					return "bad-op"
